@@ -957,6 +957,7 @@ ACCESSOR_TRAITS = ("std::ops::Index", "std::ops::Deref", "std::convert::From", "
 def helpers_of(facts, known):
     bodies = {j["key"]: j for j in facts["bodies"]}
     fnvals = _fn_value_refs(bodies)
+    known_traits = {(_impl_id(k) or ("",))[0] for k in known} | {k.rsplit("::", 1)[0] for k in known}
     cand = set()
     for k, j in bodies.items():
         if j["kind"] != "fn":
@@ -973,7 +974,10 @@ def helpers_of(facts, known):
             # traits (`rights[kind]`, `Delta::from(direction)`, `for s in squares`): sugar for a call of a private helper,
             # statically resolved at every call site, and read like one
             iid = _impl_id(k)
-            if iid is None or not iid[0].startswith(ACCESSOR_TRAITS):
+            new_trait = iid is not None and not iid[0].startswith(("std::", "core::", "alloc::")) and iid[0] not in known_traits
+            if iid is None or not (iid[0].startswith(ACCESSOR_TRAITS) or new_trait):
+                # (an impl of a trait the reference tree does not have at all - a seam put in front of existing code - is a
+                # helper as well: it is reached only where its call was resolved to it)
                 continue
         if k.split("::")[-1] in ("main",) or "::tests::" in k or k.startswith("tests::"):
             continue
@@ -1065,6 +1069,12 @@ def resolve_std_wrappers(facts):
                 tgt = by_id.get(("std::str::FromStr", t["substs"][0], "from_str"))
             elif c == "<T as std::convert::Into<U>>::into" and len(t.get("substs") or []) == 2:
                 tgt = by_id.get(("std::convert::From<%s>" % t["substs"][0], t["substs"][1], "from"))
+            if tgt is None and t.get("ikind") == "Virtual" and (t.get("substs") or [""])[0].startswith("dyn ") and "::" in c:
+                # a call through a trait object of a crate trait that has exactly one implementation goes to that one
+                tr, meth = c.rsplit("::", 1)
+                impls = [k for (itr, _ty, m), k in by_id.items() if itr == tr and m == meth]
+                if len(impls) == 1 and not tr.startswith(("std::", "core::", "alloc::")):
+                    tgt = impls[0]
             if tgt is not None:
                 t["wrapper"] = c
                 t["callee"] = tgt
